@@ -22,3 +22,84 @@ package dijkstra
 //@   ensures exact: conwayPparams$err(pp) == nil && err == nil && redeemerCount(tx) != 0 ==> bal * 100 >= fee * N(conwayPparams$r(pp).CollateralPercentage)
 //@   cover accepts: conwayPparams$err(pp) == nil && err == nil && redeemerCount(tx) != 0 && len(ins) > 0
 //@   loop 0 invariant rangeindex < len(ins) && val(totalCollateral) == common.collSum(ins, ls, rangeindex + 1)
+
+// BEGIN generated C01 contracts (tools/gen_c01_contracts.py in /verif)
+// C01: a decoder that keeps its input stores exactly the bytes it was given; an identifier
+// is Blake2b-256 of the stored bytes (the cache, when set, holds that hash).
+//@ func (c *DijkstraLeiosCertificate) UnmarshalCBOR(cborData) (err)
+//@   props C01
+//@   attr maxpaths 4000
+//@   attr safe off
+//@   requires recv: c != nil
+//@   ensures stored: err == nil ==> seq(c.cborData) == seq(cborData) && len(c.cborData) == len(cborData)
+
+//@ func (b *DijkstraBlockBody) UnmarshalCBOR(cborData) (err)
+//@   props C01
+//@   attr maxpaths 4000
+//@   attr safe off
+//@   requires recv: b != nil
+//@   ensures stored: err == nil ==> seq(b.cborData) == seq(cborData) && len(b.cborData) == len(cborData)
+
+//@ func (h *DijkstraBlockHeader) UnmarshalCBOR(cborData) (err)
+//@   props C01
+//@   attr maxpaths 4000
+//@   attr safe off
+//@   requires recv: h != nil
+//@   ensures stored: err == nil ==> seq(h.cborData) == seq(cborData) && len(h.cborData) == len(cborData)
+
+//@ func (o *DijkstraTransactionOutput) UnmarshalCBOR(cborData) (err)
+//@   props C01
+//@   attr maxpaths 4000
+//@   attr safe off
+//@   requires recv: o != nil
+//@   ensures stored: err == nil ==> seq(o.cborData) == seq(cborData) && len(o.cborData) == len(cborData)
+
+//@ func (r *DijkstraRawCbor) UnmarshalCBOR(cborData) (err)
+//@   props C01
+//@   attr maxpaths 4000
+//@   attr safe off
+//@   requires recv: r != nil
+//@   ensures stored: err == nil ==> seq(r.cborData) == seq(cborData) && len(r.cborData) == len(cborData)
+
+//@ func (b *DijkstraTransactionBody) UnmarshalCBOR(cborData) (err)
+//@   props C01
+//@   attr maxpaths 4000
+//@   attr safe off
+//@   requires recv: b != nil
+//@   ensures stored: err == nil ==> seq(b.cborData) == seq(cborData) && len(b.cborData) == len(cborData)
+
+//@ func (b *DijkstraSubTransactionBody) UnmarshalCBOR(cborData) (err)
+//@   props C01
+//@   attr maxpaths 4000
+//@   attr safe off
+//@   requires recv: b != nil
+//@   ensures stored: err == nil ==> seq(b.cborData) == seq(cborData) && len(b.cborData) == len(cborData)
+
+//@ func (r *DijkstraRedeemers) UnmarshalCBOR(cborData) (err)
+//@   props C01
+//@   attr maxpaths 4000
+//@   attr safe off
+//@   requires recv: r != nil
+//@   ensures stored: err == nil ==> seq(r.cborData) == seq(cborData) && len(r.cborData) == len(cborData)
+
+//@ func (w *DijkstraTransactionWitnessSet) UnmarshalCBOR(cborData) (err)
+//@   props C01
+//@   attr maxpaths 4000
+//@   attr safe off
+//@   requires recv: w != nil
+//@   ensures stored: err == nil ==> seq(w.cborData) == seq(cborData) && len(w.cborData) == len(cborData)
+
+//@ func (t *DijkstraSubTransaction) UnmarshalCBOR(cborData) (err)
+//@   props C01
+//@   attr maxpaths 4000
+//@   attr safe off
+//@   requires recv: t != nil
+//@   ensures stored: err == nil ==> seq(t.cborData) == seq(cborData) && len(t.cborData) == len(cborData)
+
+//@ func (u *DijkstraProtocolParameterUpdate) UnmarshalCBOR(cborData) (err)
+//@   props C01
+//@   attr maxpaths 4000
+//@   attr safe off
+//@   requires recv: u != nil
+//@   ensures stored: err == nil ==> seq(u.cborData) == seq(cborData) && len(u.cborData) == len(cborData)
+// END generated C01 contracts
